@@ -24,7 +24,9 @@ def run(c):
     k = 4 if c.thorough else 1
     gens = [dict(kind="pipelines", n=2500 * k, seed=rng.getrandbits(40), depth=3, len=7, calls=12),
             dict(kind="pipelines", n=500 * k, seed=rng.getrandbits(40), depth=6, len=10, calls=16),
-            dict(kind="unbounded", n=1500 * k, seed=rng.getrandbits(40), depth=3, len=0, calls=10)]
+            dict(kind="unbounded", n=1500 * k, seed=rng.getrandbits(40), depth=3, len=0, calls=10),
+            dict(kind="twosided", n=600 * k, seed=rng.getrandbits(40), depth=1, len=7, calls=16),
+            dict(kind="listwalk", n=1500 * k, seed=rng.getrandbits(40), depth=1, len=6, calls=14)]
     out = iterlib.run_cases(c, "C12", gens, "c12")
     iterlib.count_nontrivial(c, out, "cases = (pipeline of 1-6 combinators, source or unbounded generator, demand pattern) run on the "
                              "real library; non-trivial = unbounded source or a demand pattern that is not plain HasNext/Next alternation")
